@@ -278,6 +278,9 @@ func checkC18(p *Prog, l *Ledger) {
 	}
 	// (e) parentheses: evaluating a Grouping node does nothing but evaluate its operand
 	checkGroupingTransparent(p, l, "C18/e-parentheses/grouping-transparent")
+	// (d) renaming: the initialisers of an object literal run in the order they are written (the parser's Keys), not in
+	// an order computed from the names — a consistent renaming of the properties would reorder their side effects
+	l.AsOnlyWhere(map[string]string{"C12/S1-literal": "C18/d-renaming/literal-order"}, func(o *Obligation) bool { return o.Construct == "eval/ObjectLiteral" }, func() { checkObjectLiteral(p, l) })
 	// ---------------- (a) layout
 	{
 		srcs := fieldLoadsNamed(p, isLineField)
